@@ -67,6 +67,16 @@ def tie(ctx, tag="tie", extra=()):
     io = common.read_lines(os.path.join(out_dir, "impl_out.txt"))
     cases = common.read_lines(os.path.join(out_dir, "cases.txt"))
     sexps = common.read_lines(os.path.join(out_dir, "model_in.txt"))
+    for i in range(1, len(sexps)):  # "=" repeats the previous program
+        if sexps[i] == "=":
+            sexps[i] = sexps[i - 1]
+    classes = {}
+    for line in common.read_lines(os.path.join(out_dir, "diff_classes.jsonl")):
+        try:
+            d = json.loads(line)
+            classes[d["index"]] = d["class"]
+        except Exception:
+            pass
     stats = json.load(open(os.path.join(out_dir, "stats.json")))
     shrunk = {}
     for line in common.read_lines(os.path.join(out_dir, "shrunk.jsonl")):
@@ -75,7 +85,7 @@ def tie(ctx, tag="tie", extra=()):
             shrunk[d["index"]] = d
         except Exception:
             pass
-    return {"mo": mo, "io": io, "cases": cases, "sexps": sexps, "stats": stats, "shrunk": shrunk, "dir": out_dir}
+    return {"mo": mo, "io": io, "cases": cases, "sexps": sexps, "stats": stats, "shrunk": shrunk, "classes": classes, "dir": out_dir}
 
 
 def case_of(t, i):
@@ -164,9 +174,16 @@ def run(ctx):
         # a disagreement with the optimiser on whose twin (same program, same style, optimiser
         # off) agrees with the model is attributed to the optimiser
         off_diffs = set((c.get("sexp"), c.get("style")) for c in parsed.values() if c.get("optimize") is False)
+        # the harness shrinks at most two disagreements of each provisional class; the others of the
+        # class are represented by the smallest shrunk member
+        rep = {}
+        for s0 in t["shrunk"].values():
+            k0 = s0.get("class")
+            if k0 is not None and (k0 not in rep or s0["size"] < rep[k0]["size"]):
+                rep[k0] = s0
         for (i, m, im) in diffs:
             c = parsed[i]
-            s = t["shrunk"].get(i)
+            s = t["shrunk"].get(i) or rep.get(t["classes"].get(i))
             only = bool(c.get("optimize")) and (c.get("sexp"), c.get("style")) not in off_diffs
             key = classify(c, s["expected"] if s else m, s["observed"] if s else im, s, only)
             e = by_key.setdefault(key, {"count": 0, "first": None, "shrunk": None})
